@@ -18,6 +18,10 @@ type Profile struct {
 	NoDedup                  bool
 	MaxText                  int
 	PrimOnly                 bool // objects: only primitive sets on the generic keys, no deletes, no containers
+	// TreeMixed: blocks get inline elements between their texts (<p>ab<b>x</b>cd</p>) and
+	// edits address every cursor position inside a block, element boundaries included.
+	// Whether a generated range stays inside one parent is for the reference model to say.
+	TreeMixed bool
 }
 
 // DefaultProfile is the C01 mix.
@@ -435,6 +439,32 @@ func (p Profile) nextTree(r *rand.Rand, c Cont, del bool) Edit {
 		k = 6
 	}
 	b := blocks[r.Intn(len(blocks))]
+	if p.TreeMixed && b.Size > 2 && r.Intn(100) < 65 {
+		at := b.Start + 1 + r.Intn(b.Size-1) // any cursor position inside the block
+		switch x := r.Intn(10); {
+		case x < 3: // an inline element
+			n := TN{Type: []string{"b", "i"}[r.Intn(2)]}
+			if t := randASCII(r, 0, 2); t != "" {
+				n.Kids = []TN{{Type: "text", Text: t}}
+			}
+			return Edit{Op: "tree.edit", Path: c.Path, I: at, J: at, T: []TN{n}}
+		case x < 6 || del && x < 8: // delete (or replace) a short range
+			to := at + 1 + r.Intn(4)
+			if to > b.Start+b.Size-1 {
+				to = b.Start + b.Size - 1
+			}
+			e := Edit{Op: "tree.edit", Path: c.Path, I: at, J: to}
+			if r.Intn(4) == 0 {
+				e.T = []TN{{Type: "text", Text: randASCII(r, 1, 2)}}
+			}
+			return e
+		default: // text
+			return Edit{Op: "tree.edit", Path: c.Path, I: at, J: at, T: []TN{{Type: "text", Text: randASCII(r, 1, 3)}}}
+		}
+	}
+	if p.TreeMixed && b.Size == 2 && r.Intn(2) == 0 {
+		return Edit{Op: "tree.edit", Path: c.Path, I: b.Start + 1, J: b.Start + 1, T: []TN{{Type: "text", Text: randASCII(r, 1, 3)}}}
+	}
 	switch {
 	case k < 3 && b.OnlyTxt: // insert text inside block
 		at := b.Start + 1 + r.Intn(b.TextLen+1)
